@@ -111,6 +111,7 @@ def jobs(seed=0):
     J += rot_vec_jobs(seed)
     J += big_jobs(seed)
     J += dft_jobs(seed)
+    J += bignorm_jobs(seed)
     # vmp_jobs(seed) (contracts/vec_vmp.c) is NOT registered: with the matrix strides nrows*ncols*nn symbolic in nn most runs
     # exhaust the solver's memory or time, and dfcc rejects the loop contract on the block loop that contains the column
     # loop; the VMP wrappers are not covered (DESIGN 5/C11).
@@ -315,4 +316,24 @@ def vmp_jobs(seed=0):
     J.append(Job(name="vmp.tmp_bytes_formulas", props=["C11"], shape="S2", sources=SRC_ + ["arithmetic/vec_znx_dft.c"], harness="vec_vmp.c", entry="h_vmp_tmp_bytes", no_dfcc=True,
                  defines={"RS": 1, "AS": 1, "NR": 1, "NC": 1, "NBIG": 1}, cbmc_flags=["--unwind", "3", "--object-bits", "10"],
                  functions=["fft64_vmp_apply_dft_to_dft_tmp_bytes", "fft64_vmp_apply_dft_tmp_bytes", "fft64_vmp_prepare_contiguous_tmp_bytes"], timeout=300))
+    return J
+
+
+def bignorm_jobs(seed=0):
+    """fft64 big / range normalize: forwarding through module->func.vec_znx_normalize_base2k (restricted function pointer)"""
+    J = []
+    for nm, entry, fn, c, cases in (
+            ("big_normalize", "h_big_normalize", "fft64_vec_znx_big_normalize_base2k", "big_normalize__c", [(2, 2, 0, 1, 0), (1, 3, 0, 1, 0), (3, 1, 0, 1, 0), (2, 0, 0, 1, 0)]),
+            ("big_range_normalize", "h_big_range_normalize", "fft64_vec_znx_big_range_normalize_base2k", "big_range_normalize__c",
+             [(2, 2, 0, 1, 0), (2, 2, 1, 2, 0), (2, 2, 1, 2, 1), (1, 3, 0, 2, 0), (2, 1, 3, 3, 2), (2, 0, 1, 2, 0)])):
+        for n, (rs, as_, rb, rstep, rex) in enumerate(cases):
+            st = STRIDES[(seed + n) % 3]
+            d = {"RS": rs, "AS": as_, "REXT": rs, "RM": st[0], "RA": st[1], "AM": rstep, "AA": 0, "ALIAS": 0, "RBEGIN": rb, "RSTEP": rstep, "REND_EXTRA": rex}
+            J.append(Job(name="bignorm.%s.r%da%d.b%ds%de%d.s%d%d" % (nm, rs, as_, rb, rstep, rex, st[0], st[1]), props=["C05", "C11", "C18"], shape="S3",
+                         sources=["arithmetic/vec_znx_big.c", "arithmetic/vec_znx.c"], harness="vec_bignorm.c", entry=entry, enforce=[(fn, c)],
+                         replace=[("vec_znx_normalize_base2k_ref", "vec_znx_normalize__c")], defines=d,
+                         restrict_fp=["%s.function_pointer_call.1/vec_znx_normalize_base2k_ref" % fn],
+                         cbmc_flags=["--unwind", "4", "--unwinding-assertions", "--no-signed-overflow-check", "--no-undefined-shift-check", "--object-bits", "11"],
+                         functions=[fn], timeout=900, solver="race",
+                         bound_note="res limbs %d, selected big limbs %d (begin %d, step %d), k symbolic; callee = slot contract of vec_znx_normalize_base2k_ref" % (rs, as_, rb, rstep)))
     return J
